@@ -64,8 +64,16 @@ def is_null(v):
     return v == NULL
 
 
+WIDE_REPS = [256, 0x130, 0x141, 0x161, 0x125, 0x15B, 0x13A, 0x12F, 0x12E, 0x20AC, 0x10FFFF, -1, -128, -208]
+
+
 class Alphabet(object):
-    """partition of symbols 0..256 (256 = any value outside 0..255) into classes"""
+    """partition of the symbols into classes.  Symbols 0..255 are the code points (for char: the byte
+    values, 128..255 being the negative char values); for wchar_t, symbols 256.. are representatives of the
+    character values outside 0..255 (WIDE_REPS; several are congruent to ASCII characters modulo 256).  The
+    grammar and every case label mention only 0..255, so equality tests and switches treat all out-of-range
+    values alike and the representatives stand for all of them exactly; arithmetic on such a value is
+    evaluated on the representatives only and marks the run as sampled."""
 
     def __init__(self, class_sets, suffix):
         self.sets = [frozenset(s) for s in class_sets]
@@ -75,26 +83,38 @@ class Alphabet(object):
             for x in s:
                 self.of[x] = i
 
+    @staticmethod
+    def all_symbols(suffix):
+        return list(range(256)) if suffix == 'A' else list(range(256 + len(WIDE_REPS)))
+
+    def value_of(self, sym):
+        if sym < 256:
+            return sym - 256 if (self.suffix == 'A' and sym >= 128) else sym
+        return WIDE_REPS[sym - 256]
+
     def sym_of_value(self, v):
-        """symbol for C character value v"""
+        """symbol for C character value v, None if no symbol stands for it"""
         if self.suffix == 'A':
             if -128 <= v < 0:
                 return v + 256
             if 0 <= v < 128:
                 return v
-            if 128 <= v < 256:
-                return None      # not a value of (signed) char
             return None
         if 0 <= v <= 255:
             return v
-        return 256
+        if v in WIDE_REPS:
+            return 256 + WIDE_REPS.index(v)
+        return None
+
+    def has_wide(self, cls):
+        return any(x >= 256 for x in self.sets[cls])
 
     def values(self, cls):
-        """(lo, hi) of character values if the class is a contiguous range of plain values, else None"""
+        """(lo, hi) of character values if the class is a contiguous range of in-range values, else None"""
         s = self.sets[cls]
-        if 256 in s:
+        if any(x >= 256 for x in s):
             return None
-        vals = sorted((x - 256 if (self.suffix == 'A' and x >= 128) else x) for x in s)
+        vals = sorted(self.value_of(x) for x in s)
         if vals[-1] - vals[0] + 1 != len(vals):
             return None
         return vals[0], vals[-1]
@@ -114,7 +134,7 @@ class Alphabet(object):
         s = sorted(self.sets[cls])
         out = []
         for x in s[:6]:
-            out.append('other' if x == 256 else (repr(chr(x)) if 32 < x < 127 else '0x%02x' % x))
+            out.append('wide:%#x' % self.value_of(x) if x >= 256 else (repr(chr(x)) if 32 < x < 127 else '0x%02x' % x))
         return '{%s%s}' % (','.join(out), ',..' if len(s) > 6 else '')
 
     def sample(self, cls):
@@ -171,6 +191,7 @@ class Machine(object):
         self.char_ty = 'char' if suffix == 'A' else 'wchar_t'
         self.leaf_cache = {}
         self.qcache = {}
+        self.sampled = False            # arithmetic was evaluated on representatives of out-of-range wide characters
         self.cellwatch = set(a for fi in self.static.info.values() for a in fi.fill)
         self.cellneeds = None           # projected key -> needed cells (from the pre-analysis)
         self.coarse_regs = True         # URI text-range fields hold NULL / placeholder / 'some input pointer'
@@ -425,20 +446,33 @@ class Machine(object):
             if iv[0] == 'r':
                 lo, hi = wrap_int(iv[1], ty), wrap_int(iv[2], ty)
                 return iv if (lo, hi) == (iv[1], iv[2]) else TOP
+            if iv[0] == 'd':
+                return self.dnorm(iv[1], [(x, wrap_int(y, ty)) for x, y in iv[2]])
             return iv
         if v[0] == 'r':
             lo, hi = wrap_int(v[1], ty), wrap_int(v[2], ty)
             if lo == v[1] and hi == v[2]:
                 return v
             return TOP
+        if v[0] == 'd':
+            return self.dnorm(v[1], [(x, wrap_int(y, ty)) for x, y in v[2]])
         return v
+
+    @staticmethod
+    def dnorm(cls, pairs):
+        vals = set(y for _, y in pairs)
+        if len(vals) == 1:
+            return ('i', vals.pop())
+        return ('d', cls, tuple(pairs))
 
     def char_to_int(self, v):
         if len(v) == 3 and self.trace is not None:
             self.trace.append(None)      # the value itself is used: path not shareable between classes
         rng = self.al.values(v[1])
         if rng is None:
-            return TOP
+            if self.al.has_wide(v[1]):
+                self.sampled = True
+            return ('d', v[1], tuple(sorted((x, self.al.value_of(x)) for x in self.al.sets[v[1]])))
         if rng[0] == rng[1]:
             return ('i', rng[0])
         return ('r', rng[0], rng[1], frozenset((v[1],)))
@@ -463,6 +497,15 @@ class Machine(object):
                 return ('i', a[2][-1] - b[2][-1])
             return TOP
         a, b = self.as_int(a), self.as_int(b)
+        if (a[0] == 'd' and b[0] == 'i') or (a[0] == 'i' and b[0] == 'd'):
+            dv = a if a[0] == 'd' else b
+            out = []
+            for sym, val in dv[2]:
+                r = self.arith(op, ('i', val) if a[0] == 'd' else a, b if a[0] == 'd' else ('i', val), e)
+                if r[0] != 'i':
+                    return TOP
+                out.append((sym, r[1]))
+            return self.dnorm(dv[1], out)
         if a[0] == 'i' and b[0] == 'i':
             x, y = a[1], b[1]
             try:
@@ -541,19 +584,22 @@ class Machine(object):
             op, val, loc = q[1], q[2], q[3]
             if op in ('==', '!='):
                 sym = self.al.sym_of_value(val)
+                if sym is None and not (self.suffix == 'A' or 0 <= val <= 255):
+                    raise Imprecise('comparison with a wide character constant %#x that has no representative at %s'
+                                    % (val, fmt_loc(loc)))
+                if sym is not None and sym >= 256:
+                    self.sampled = True
                 if sym is None or sym not in s:
                     return op == '!='
-                if sym == 256:
-                    raise Imprecise('comparison with a character constant outside 0..255 at %s' % fmt_loc(loc))
                 if len(s) == 1:
                     return op == '=='
                 raise NeedSplit(cls, [sym])
             res = set()
             yes = []
             for sym in s:
-                if sym == 256:
-                    raise Imprecise('relational comparison of an out-of-range wide character at %s' % fmt_loc(loc))
-                x = sym - 256 if (self.suffix == 'A' and sym >= 128) else sym
+                if sym >= 256:
+                    self.sampled = True
+                x = self.al.value_of(sym)
                 r = self.cmp_int(op, x, val)
                 res.add(r)
                 if r:
@@ -565,14 +611,16 @@ class Machine(object):
             t = q[1]
             cases, default = t[2], t[3]
             by = {}
+            for cv, _cb in cases:
+                if not (-128 <= cv <= 255):
+                    self.sampled = True
             for sym in s:
                 tg = default
-                if sym != 256:
-                    val = sym - 256 if (self.suffix == 'A' and sym >= 128) else sym
-                    for cv, cb in cases:
-                        if cv == val:
-                            tg = cb
-                            break
+                val = self.al.value_of(sym)
+                for cv, cb in cases:
+                    if cv == val:
+                        tg = cb
+                        break
                 by.setdefault(tg.id, (tg, []))[1].append(sym)
             if len(by) == 1:
                 return list(by.values())[0][0]
@@ -594,6 +642,13 @@ class Machine(object):
             if v[1] > 0 or v[2] < 0:
                 return True
             self.split_src(v, e)
+        if t == 'd':
+            yes = [sym for sym, val in v[2] if val != 0]
+            if len(yes) == len(v[2]):
+                return True
+            if not yes:
+                return False
+            raise NeedSplit(v[1], yes)
         if self.optimistic and t == 't':
             raise Unknown()
         raise Imprecise('branch on unknown value %r at %s' % (v, fmt_loc(e.loc)))
@@ -619,6 +674,16 @@ class Machine(object):
             if b[0] != 'i':
                 raise Imprecise('character compared with %r at %s' % (b, fmt_loc(e.loc)))
             return self.cquery(a, ('cmp', op, b[1], e.loc))
+        # value derived from one character, evaluated per member of its class
+        if (ta == 'd' and tb == 'i') or (ta == 'i' and tb == 'd'):
+            if ta != 'd':
+                a, b, op = b, a, swap[op]
+            yes = [sym for sym, val in a[2] if self.cmp_int(op, val, b[1])]
+            if len(yes) == len(a[2]):
+                return True
+            if not yes:
+                return False
+            raise NeedSplit(a[1], yes)
         # integers
         if ta in ('i', 'r') and tb in ('i', 'r') and not (ta == 'i' and tb == 'i' and False):
             if ta == 'i' and tb == 'i':
